@@ -54,6 +54,12 @@ def finish(agg, tier):
     return {"exhaustive": True, "exhaustive_scope": "per authentic file: all byte positions x 11 replacement classes, all proper prefixes of binary and text, all 128 session-key bit flips (the set of authentic files itself is a sample)"}
 
 
+def ecies_n():
+    from ..refs import ecies
+
+    return ecies.P256_N
+
+
 def field_map(binary, kind):
     """list of (start, end, name) regions of an authentic binary"""
     regs = []
@@ -272,7 +278,9 @@ def run_authentic(ns, ctx, a, rng, full=True):
                     c2[bit // 8] ^= 1 << (bit % 8)
                     s2["code"] = bytes(c2)
                 else:
-                    s2["priv"] = s["priv"] ^ (1 << (bit * 31 % 250)) or 1
+                    s2["priv"] = (s["priv"] ^ (1 << (bit * 31 % 250))) % (ecies_n() - 1) + 1
+                    if s2["priv"] == s["priv"]:
+                        s2["priv"] = s["priv"] % (ecies_n() - 2) + 1
                 specs2 = list(a.specs)
                 specs2[bi] = s2
                 ctx.bin("key_bit_flip_bec2_decryptor")
